@@ -26,11 +26,11 @@ PROPS = {
         "note": "window sizes above 18 (G1) / 15 (G2) are covered by theorem only, not by differential cases (table size)",
     },
     "C03": {
-        "modules": ["PP.Props.C03"], "level": "other", "technique": "Lean 4 proof of the provable clauses + differential and oracle tests of bilinearity",
-        "text": "Theorems: identity arguments give 1, e(P,Q)^r = 1, e = (Miller value)^(3(q^12-1)/r) via C12, published e(g1,g2) KAT where kernel-evaluable. Bilinearity, non-degeneracy and agreement with a textbook Miller function are NOT carried by theorems (divisor theory is absent from Mathlib); they are tested: impl vs Lean model on every case, and e([a]P,[b]Q) = e(P,Q)^(ab) against an independent python Fq12 for scalars incl. 0,1,r-1,r,r+1,>=r, plus the repository's relic vector." + DIFF,
+        "modules": ["PP.Props.C03", "PP.Props.C03Lines"], "level": "other", "technique": "Lean 4 proof (Miller loop = textbook tangent/chord lines of [k]Q, reduced ate value, order, identities, KAT) + differential and oracle tests of bilinearity",
+        "text": "Theorems: identity arguments give 1, e(P,Q)^r = 1, published e(g1,g2) reproduced both by the model and by the textbook specification; for all finite P in E(Fq), Q on E' with r Q = O (in particular all G1 x G2 inputs): the accumulator of the preparation loop is [k]Q, every coefficient triple IS the tangent/chord line of the untwisted points up to a factor in Fq4, the model's Miller loop equals conj(unit * textbook double-and-add Miller product) and pairing(P,Q) = conj(textbookMiller(P,Q))^(3(q^12-1)/r), also for the variant with vertical lines (denominator elimination proved). Bilinearity and non-degeneracy are NOT carried by theorems (divisor theory is absent from Mathlib; the textbook value is defined as a product of lines, not via divisors); they are tested: impl vs Lean model on every case, and e([a]P,[b]Q) = e(P,Q)^(ab) against an independent python Fq12 for scalars incl. 0,1,r-1,r,r+1,>=r, plus the repository's relic vector." + DIFF,
         "note": "partial: bilinearity / non-degeneracy are tests, labelled as such in the evidence (partial_clauses)",
-        "explanation": "theorem-backed: identity->1, order divides r, exponent 3(q^12-1)/r, KAT; test-backed: bilinearity, non-degeneracy, textbook agreement",
-        "partial": ["bilinearity (test only)", "non-degeneracy (test only)", "agreement with textbook Miller function (test only)"],
+        "explanation": "theorem-backed: identity->1, order divides r, value = reduced ate pairing computed by the textbook tangent/chord Miller product, exponent 3(q^12-1)/r, KAT; test-backed: bilinearity, non-degeneracy",
+        "partial": ["bilinearity (test only)", "non-degeneracy (test only)"],
     },
     "C04": {
         "modules": ["PP.Props.C04", "PP.Props.C04Inst"], "level": "proof", "technique": "Lean 4 proof (decoder = ordered declarative validation, for all byte strings) + differential correspondence",
